@@ -320,3 +320,33 @@ def run_e4g(prog, rep, rule="E4.g"):
         rep.control(rule, verdict.get("NAMES") is False, "planted immutable static is not reported")
         rep.control(rule, len(_thread_local_accesses(c.fns.values())) >= 1, "planted thread-local access is reported")
     return n
+
+
+def no_address_in_text(prog, rep, rule="E4.id"):
+    """a syntax node's id (`SyntaxNodeRef.index`, `Node::id()`) is derived from a memory address: it differs from parse to parse
+    and from process to process.  It may key in-memory maps, but it must not be rendered into messages, attribute values or the
+    pretty-printed graph (the JSON `id` of a syntax-node value is the documented exception, outside this rule: Serialize is not
+    a format call)."""
+    from ..lib.trace import mentions_field
+    rep.rule(rule, "no format argument (Display/Debug of messages, values, errors) is derived from SyntaxNodeRef.index or tree_sitter::Node::id()")
+    n = 0
+    for f in sorted(prog.lib.fns.values(), key=lambda x: x.id):
+        if f.body is None or prog.is_absorbed(f):
+            continue
+        if f.trait in ("std::fmt::Debug",) and "derive" in str(f.sp.get("m", "")):
+            continue
+        tr = None
+        k = 0
+        for b, t in f.body.calls():
+            if not is_callee(t, r"fmt::rt::Argument::<'_>::new_\w+$"):
+                continue
+            n += 1
+            tr = tr or Tracer(f.body)
+            e = tr.operand(t["args"][0])
+            if mentions_field(e, "tsg::graph::SyntaxNodeRef", "index") or "Node::id(" in canon(e):
+                k += 1
+                rep.violation(rule, "%s :: address-derived id in text #%d" % (f.id, k), sp_str(t["sp"]),
+                              "%s renders a syntax-node id (%s): the text differs between two parses of the same source and between processes" % (f.name, canon(e)[:100]))
+    rep.ok(rule, "format arguments scanned", "", "%d format arguments in the library, none derived from a node id" % n)
+    rep.floor(rule, n, 150, "format arguments")
+    return n
